@@ -62,6 +62,8 @@ func runC04(c *Ctx) {
 		r.Check(good, "R04-relaunch", "the go arm halts the previous search before Analyze", c.pos(d.process.Pos()), "", "")
 	})
 	c.guard("R04-single", func() { c04Single(c, d) })
+	// a bestmove for a superseded search is one too many for the go that follows (rule of C16)
+	c.guard("R04-single", func() { r.WithAlias("R16-supersede", "R04-single", func() { c16Supersede(c, d) }) })
 	c.guard("R04-complete", func() { c04Complete(c, d) })
 	c.guard("R04-rootpv", func() { c04RootPV(c) })
 	c.guard("R04-depth1", func() { c04Depth1(c) })
@@ -389,7 +391,7 @@ func c04RootPV(c *Ctx) {
 	}
 	// the searches the bundled engines are built on (R04-engines): the recursive functions behind AlphaBeta.Search
 	engineSearch := map[*ssa.Function]bool{}
-	if ab := c.P.Func("pkg/search", "AlphaBeta", "Search"); ab != nil {
+	if ab := c.find("pkg/search", "AlphaBeta", "Search"); ab != nil {
 		for _, b := range ab.Blocks {
 			for _, ins := range b.Instrs {
 				if call, ok := ins.(ssa.CallInstruction); ok && call.Common().StaticCallee() != nil {
@@ -469,7 +471,7 @@ func c04RootPV(c *Ctx) {
 		r.Undecided("R04-rootpv", "root search", "", "", "no recursive search returning a PV found")
 	}
 	// the public Search returns the root's PV unchanged
-	if fn := c.P.Func("pkg/search", "AlphaBeta", "Search"); fn != nil {
+	if fn := c.find("pkg/search", "AlphaBeta", "Search"); fn != nil {
 		paths, und := m.paths(fn)
 		bad := und
 		for _, sp := range paths {
@@ -554,7 +556,7 @@ func c04Engines(c *Ctx) {
 	}
 	r.Check(len(bad) == 0 && n >= 4, "R04-engines", "every bundled engine uses a covered Search", "", "", fmt.Sprintf("%s (%d engine constructions)", strings.Join(bad, "; "), n))
 	// sargon.Hook.Search returns the wrapped result unchanged
-	if hk := c.P.Func("cmd/sargon/sargon", "Hook", "Search"); hk != nil {
+	if hk := c.find("cmd/sargon/sargon", "Hook", "Search"); hk != nil {
 		good := false
 		for _, b := range hk.Blocks {
 			if ret, ok := b.Instrs[len(b.Instrs)-1].(*ssa.Return); ok && len(ret.Results) == 4 {
